@@ -10,6 +10,7 @@ pub broadcast proof fn axiom_str_eq(a: &str, b: &str)
 #[verifier::external_body]
 pub proof fn axiom_str_obeys()
     ensures <&str as vstd::std_specs::cmp::PartialEqSpec<&str>>::obeys_eq_spec(),
+            vstd::std_specs::hash::obeys_key_model::<&str>(),   // A-STR: Hash/Eq of &str agree with spec equality
 {}
 pub assume_specification [std::string::String::into_boxed_str] (s: std::string::String) -> (r: std::boxed::Box<str>)
     ensures r@ == s@;
@@ -37,3 +38,13 @@ pub proof fn axiom_pat_str<'a>(p: &'a str)
 {}
 pub assume_specification<P: std::str::pattern::Pattern> [str::starts_with] (s: &str, p: P) -> (r: bool)
     ensures pat_is_str::<P>() ==> r == (s@.len() >= pat_str(p).len() && s@.take(pat_str(p).len() as int) == pat_str(p));
+// A-STR (trusted): HashMap<&str, V>::get(&str) (Borrow<str>) finds exactly the entry keyed by that string
+#[verifier::external_body]
+pub broadcast proof fn axiom_str_borrowed_key<'a, V>(m: Map<&'a str, V>, k: &'a str)
+    ensures #[trigger] vstd::std_specs::hash::contains_borrowed_key::<&'a str, V, str>(m, k) == m.contains_key(k),
+{}
+#[verifier::external_body]
+pub broadcast proof fn axiom_str_borrowed_val<'a, V>(m: Map<&'a str, V>, k: &'a str, v: V)
+    ensures #[trigger] vstd::std_specs::hash::maps_borrowed_key_to_value::<&'a str, V, str>(m, k, v) == (m.contains_key(k) && m[k] == v),
+{}
+pub broadcast group str_key_model { axiom_str_borrowed_key, axiom_str_borrowed_val }
